@@ -21,6 +21,7 @@ import sys
 
 sys.path.insert(0, os.path.dirname(os.path.dirname(os.path.abspath(__file__))))
 from sa import core, pyfacts as pf, cfg as cfgm, batch, ksrules as ks  # noqa: E402
+from sa import unroll  # noqa: E402
 from sa.selftest import Mutant  # noqa: E402
 
 PROP = "C17"
@@ -161,6 +162,16 @@ def rule_batch(chk):
 
 
 def _analyse_own(chk):
+    # spin loops (`for s in range(2)`, comprehensions over the two spins) are analysed as their two iterations
+    orig_tree = chk.tree
+    chk.tree = unroll.view(orig_tree)
+    try:
+        _analyse_rules(chk)
+    finally:
+        chk.tree = orig_tree
+
+
+def _analyse_rules(chk):
     chk.rule("unsupported-raise", "SDMX / NLOF models raise NotImplementedError before any eval_xc_cider call")
     chk.rule("dispatch-total", "nuc_grad_method returns a matching Gradients class or raises on every path")
     chk.rule("grad-half", "density / tau rows of the weighted potential halved exactly once before the contraction")
